@@ -15,10 +15,12 @@ import (
 
 	"github.com/sourcegraph/jsonrpc2"
 
+	"github.com/open-policy-agent/opa/v1/ast"
 	"github.com/open-policy-agent/opa/v1/util"
 
 	"github.com/styrainc/regal/internal/lsp/log"
 	"github.com/styrainc/regal/internal/lsp/types"
+	"github.com/styrainc/regal/pkg/config"
 
 	"github.com/styrainc/roast/pkg/encoding"
 )
@@ -237,4 +239,35 @@ func testRequestDataCodes(t *testing.T, requestData types.FileDiagnostics, fileU
 	t.Logf("got expected items")
 
 	return true
+}
+
+// ignore patterns are written against file paths, so a module whose URI has
+// percent-encoded characters must be matched by its decoded path, by both
+// ignoreURI and getFilteredModules.
+func TestFilteredModulesMatchesDecodedPaths(t *testing.T) {
+	t.Parallel()
+
+	ls := NewLanguageServer(t.Context(), &LanguageServerOptions{LogWriter: newTestLogger(t), LogLevel: log.LevelDebug})
+	ls.workspaceRootURI = "file:///workspace"
+	ls.loadedConfig = &config.Config{Ignore: config.Ignore{Files: []string{"generated files/"}}}
+
+	ignored := "file:///workspace/generated%20files/p.rego"
+	kept := "file:///workspace/main%20files/p.rego"
+
+	for _, fileURI := range []string{ignored, kept} {
+		ls.cache.SetModule(fileURI, &ast.Module{})
+	}
+
+	modules, err := ls.getFilteredModules()
+	if err != nil {
+		t.Fatal(err)
+	}
+
+	if _, ok := modules[ignored]; ok || !ls.ignoreURI(ignored) {
+		t.Errorf("expected %s to be ignored", ignored)
+	}
+
+	if _, ok := modules[kept]; !ok || ls.ignoreURI(kept) {
+		t.Errorf("expected %s not to be ignored", kept)
+	}
 }
